@@ -28,6 +28,7 @@ import (
 	mrand "math/rand"
 	"sort"
 	"sync"
+	"sync/atomic"
 	"time"
 
 	"github.com/IBM/TSS/mpc/bls"
@@ -552,10 +553,18 @@ func (h *algPlayer) shareData(publicKeys [][]byte, tpk []byte) ([]byte, error) {
 	return asn1.Marshal(ps.StoredData{Sk: skb, PublicKeys: publicKeys, ThresholdPK: tpk})
 }
 
+// algTimeouts counts DKG runs that hit the (very generous) deadline; after a few of them the remaining runs are skipped, so that a
+// tree on which every DKG hangs costs minutes, not hours (skipped and timed-out runs are "unusable", never a verdict).
+var algTimeouts int32
+
 func algDkg(c algDkgCase, timeout time.Duration) obj {
 	res := obj{"k": "dkg", "scheme": c.Scheme, "n": c.N, "t": c.T, "pos": c.Pos, "off": c.Off, "comp": c.Comp, "expect": c.Expect,
 		"ids": []uint16{}, "seed": c.Seed, "exh": c.Exh, "errs": []bool{}, "panics": []bool{}, "agree": false, "timeout": false, "subs": [][]int{},
 		"oks": []bool{}, "errtxt": "", "harness": "", "signed": false, "ms": 0}
+	if atomic.LoadInt32(&algTimeouts) >= 3 {
+		res["timeout"], res["harness"] = true, "skipped after repeated timeouts"
+		return res
+	}
 	t0 := time.Now()
 	rng := mrand.New(mrand.NewSource(c.Seed))
 	parties := c.Ids
@@ -649,6 +658,7 @@ func algDkg(c algDkgCase, timeout time.Duration) obj {
 	res["ms"] = time.Since(t0).Milliseconds()
 	if ctx.Err() != nil {
 		res["timeout"] = true
+		atomic.AddInt32(&algTimeouts, 1)
 	}
 	if player != nil && player.err != "" {
 		res["harness"] = player.err
